@@ -10,6 +10,9 @@ pub const T1: &str = "projects/p/topics/t1";
 pub const S0: &str = "projects/p/subscriptions/s0";
 pub const S1: &str = "projects/p/subscriptions/s1";
 pub const S2: &str = "projects/p/subscriptions/s2";
+pub const SQ: &str = "projects/q/subscriptions/s0";
+pub const TQ: &str = "projects/q/topics/t0";
+pub const ALL_SUBS: [&str; 4] = [S0, S1, S2, SQ];
 
 #[derive(Clone, Debug)]
 pub struct Ev {
